@@ -226,7 +226,8 @@ def r161(chk, m):
                               ('without --config', {'config': None, 'file': 'doc.tex'},
                                "defaults renderer-sections registerArgparse(<argparse-parser>) parse updateFromDict(data) run('doc.tex', <config>)")):
         h = H(m, data)
-        h.should_inline = lambda fname, node, info: info is None or (getattr(node, 'name', '').startswith('_') and info.cls is None)
+        h.should_inline = lambda fname, node, info: info is None or (getattr(node, 'name', '').startswith('_') and info.cls is None) \
+            or (info.cls is not None and re.match(r'_[A-Za-z]', info.cls.name) is not None)         # (private helper classes of the module)
         it = A.Interp(model=m, scope=fn, hooks=h, max_iter=8, exc_edges=False, inline=6, heap=True, precise_exc=True)
         outs = it.run_function(fn, env={'argv': ['doc.tex']})
         if it.imprecise or it.unknown_branches:
